@@ -943,7 +943,7 @@ META = {
              'never outside the gap), with the gap start proven equal to `current` at bin-loop entry on all paths by value numbering; no positional '
              'test against a foreign enumeration; fill_range emits the final partial step; bp_chunked places every bin in exactly one chunk. Does NOT '
              'decide the exact-partition arithmetic for all (region, bin, blacklist) numbers.'),
-    'technique': 'static analysis: exhaustive ordering enumeration of interval predicates and clamp expressions, must-equality by value numbering along CFG paths, exactly-once path checks; small-scope abstract execution of merge_overlapping_ranges (every list of <= 3 ranges over 0..5) where the structural reading cannot decide',
+    'technique': 'static analysis: exhaustive ordering enumeration of interval predicates and clamp expressions, must-equality by value numbering along CFG paths, exactly-once path checks; small-scope abstract execution of merge_overlapping_ranges (every list of <= 3 ranges over 0..5) where the structural reading cannot decide; small-scope evaluation of the tiling property itself (exact partition, bin size, contained fetch windows) on every small tiling problem (rule R9), interpretation of the BED loader',
     'design_ref': 'DESIGN.md section 5, C17',
 }
 
